@@ -643,17 +643,44 @@ func (p *platform) genSource(allowBad bool) (srcSpec, types.DataSource) {
 			mr = append(mr, pkgbytes.Range{Offset: x[0], Length: x[1]})
 		}
 		return srcSpec{data: dataSpec{refs: []refSpec{r}}}, mr
-	case 8: // datasources.Concat of two sources
-		d1, d2 := p.genData(allowBad), p.genData(allowBad)
-		d1.conv, d2.conv = 0, 0
+	case 8, 9: // datasources.Concat of two sources
+		// Concat refuses sub-sources with a converter or with "forced bytes" (a non-empty
+		// types.RawBytes artifact among the references): mostly image-only parts, sometimes not
+		imageOnly := ctx.Rng.Intn(4) > 0
+		part := func() dataSpec {
+			d := p.genData(allowBad)
+			d.conv = 0
+			if imageOnly {
+				for i := range d.refs {
+					for d.refs[i].art.kind != 1 {
+						d.refs[i] = p.genRef(allowBad)
+					}
+				}
+			}
+			return d
+		}
+		d1, d2 := part(), part()
+		if ctx.Rng.Intn(10) == 0 { // a part with a converter: refused
+			d2.conv = pick[uint16](algSHA1, algSHA256)
+		}
 		mk := func(d dataSpec) types.DataSource {
-			td := &types.Data{}
+			td := &types.Data{Converter: realConv(d.conv, false)}
 			for _, r := range d.refs {
 				td.References = append(td.References, realRef(r))
 			}
 			return (*datasources.StaticData)(td)
 		}
-		return srcSpec{data: dataSpec{refs: append(append([]refSpec{}, d1.refs...), d2.refs...)}}, datasources.Concat{mk(d1), mk(d2)}
+		all := append(append([]refSpec{}, d1.refs...), d2.refs...)
+		ds := datasources.Concat{mk(d1), mk(d2)}
+		if d2.conv != 0 {
+			return srcSpec{err: true}, ds
+		}
+		for _, r := range all {
+			if r.art.kind == 0 && len(r.art.content) > 0 {
+				return srcSpec{err: true}, ds
+			}
+		}
+		return srcSpec{data: dataSpec{refs: all}}, ds
 	}
 	d := p.genData(allowBad)
 	td := &types.Data{Converter: realConv(d.conv, ctx.Rng.Intn(2) == 0)}
@@ -1306,6 +1333,7 @@ func judge(r *runResult) {
 	}
 	var measLits []string
 	measBytes := make([][]byte, len(s.MeasuredData))
+	measRead := make([]bool, len(s.MeasuredData)) // ConvertedBytes returned (it may return nil for no bytes)
 	for i := range s.MeasuredData {
 		var cb []byte
 		pan, _ := gal.Recover(func() { cb = s.MeasuredData[i].ConvertedBytes() })
@@ -1313,7 +1341,7 @@ func judge(r *runResult) {
 			measLits = append(measLits, "((-1), 0)")
 			continue
 		}
-		measBytes[i] = cb
+		measBytes[i], measRead[i] = cb, true
 		h := uint64(0)
 		for _, x := range cb {
 			h = gal.DStep(h, uint64(x))
@@ -1557,7 +1585,7 @@ func judge(r *runResult) {
 				"pkg/bootflow/actions/tpmactions/tpm_event.go:Apply / pkg/bootflow/types/data.go:RawBytes")
 			if n == 4 {
 				mi := measuredBy[a]
-				expect(len(mi) == 1 && measBytes[mi[0]] != nil && bytes.Equal(measBytes[mi[0]], m.conv.b),
+				expect(len(mi) == 1 && measRead[mi[0]] && bytes.Equal(measBytes[mi[0]], m.conv.b),
 					"MeasuredData.ConvertedBytes of a TPMEvent != converter(concatenation in reference order of the referenced bytes)",
 					"pkg/bootflow/types/data.go:Data.ConvertedBytes / References.RawBytes")
 			}
@@ -1573,7 +1601,7 @@ func judge(r *runResult) {
 				"the command issued for a TPMExtend does not carry ConvertedBytes of the data its references denote",
 				"pkg/bootflow/actions/tpmactions/tpm_extend.go:Apply / pkg/bootflow/types/data.go")
 			if mi := measuredBy[a]; len(mi) == 1 {
-				expect(measBytes[mi[0]] != nil && bytes.Equal(measBytes[mi[0]], m.conv.b),
+				expect(measRead[mi[0]] && bytes.Equal(measBytes[mi[0]], m.conv.b),
 					"MeasuredData.ConvertedBytes of a TPMExtend != converter(concatenation of the referenced bytes)", "data.go:ConvertedBytes")
 			}
 		case "pcr0":
